@@ -189,6 +189,22 @@ def execute(obj, ops, other=None, panel=None):
                     out = ["Done"]
                 else:
                     raise ValueError(k)
+            elif k == "Clone":
+                # the state dictionary first (idempotent: it materialises the defaults on the original), then the copy
+                # of the FIRST instance; on success the copy is the second instance from now on
+                st = first.__getstate__()
+                st.pop("__traits_version__", None)
+                state = [[m, atom(v)] for m, v in st.items()]
+                try:
+                    new = copy.copy(first) if n == "copy" else pickle.loads(pickle.dumps(first, 2))
+                    other = new
+                    hist.append({"out": ["Done"], "state": state,
+                                 "copy": [[m, atom(new.__dict__[m]) if m in new.__dict__ else None] for m, _ in state],
+                                 "stored": None, "shadow": None, "base": None, "inst": None})
+                except Exception as e:  # noqa
+                    hist.append({"out": ["Raise", dlib.exn_name(e, EXN)], "state": state, "copy": [],
+                                 "stored": None, "shadow": None, "base": None, "inst": None})
+                continue
             elif k == "Listen":
                 obj.on_trait_change(_handler, n)
                 out = ["Done"]
